@@ -176,6 +176,8 @@ struct solve_in {
     double tol = 1e-8;
     ptree prm;                    // complete make_solver params
     std::shared_ptr<crsd> A;
+    std::shared_ptr<crsd> Acall;  // if set: the system matrix passed to the call, solve(Acall, f, x); A is the preconditioner's
+    int sc = 0, it0 = -1; long rep0 = 0;   // mode scale: f = 2^sc * f_base; iteration count / reported residual at sc = 0
     std::vector<double> f, x0;
     long cfgid = 0;
 };
@@ -203,6 +205,8 @@ static void record_header(vr::obj &o, const solve_in &in, double &rep_out) {
          .i("npost", in.prm.get("precond.amg.npost", -1)).i("ncyc", in.prm.get("precond.amg.ncycle", -1))
          .i("prec", in.prm.get("precond.amg.pre_cycles", -1)).i("dc", in.prm.get("precond.amg.direct_coarse", true))
          .i("ml", in.prm.get("precond.amg.max_levels", -1));
+    if (in.Acall) o.i("xa", 1);
+    if (in.mode == "scale") o.i("sc", in.sc).i("it0", in.it0).i("rep0", in.rep0);
     ++g_cases;
     if (const char *dump = getenv("C01_DUMPMAT")) {     // investigation aid: matrix of the (single) selected case
         FILE *fp = fopen(dump, "w");
@@ -219,7 +223,7 @@ static void solve_and_measure(Solver &solve, const solve_in &in, vr::obj &o, dou
         bool zero = nf < 4.4408920985006262e-16L;       // amgcl::detail::eps<double>(1): the solvers' own shortcut test
         solve.precond().count = 0; solve.precond().maxout = 0; solve.precond().maxin = 0;
         size_t it; double rep;
-        std::tie(it, rep) = solve(in.f, x);
+        if (in.Acall) std::tie(it, rep) = solve(*in.Acall, in.f, x); else std::tie(it, rep) = solve(in.f, x);
         size_t nP = solve.precond().count;
         double maxout = solve.precond().maxout, maxin = solve.precond().maxin;
         if (it_out) *it_out = it;
@@ -229,7 +233,7 @@ static void solve_and_measure(Solver &solve, const solve_in &in, vr::obj &o, dou
         bool xz = true; for (double v : x) if (v != 0) xz = false;
         o.i("it", (long)it).i("nP", (long)nP).i("zero", zero).i("xz", xz).i("nan", !finite);
         if (finite) {
-            const crsd &A = *in.A;
+            const crsd &A = in.Acall ? *in.Acall : *in.A;      // the truth is judged against the matrix of the call
             std::vector<ld> r, gabs;
             spmv_abs(A, x, in.f, r, gabs);
             ld den = zero ? 1.0L : nf;                 // zero rhs: the solver returns ||rhs|| itself
@@ -637,6 +641,107 @@ static void mode_hist(int shard, int nshards) {
                 in.cas = "after_breakdown"; in.f = {1, 2, 3}; in.x0 = {0, 0, 0}; run_solve_on(solve, in);
                 in.cas = "after_solve"; in.f = {-2, 0.5, 1}; in.x0 = {0, 0, 0}; run_solve_on(solve, in);
             } catch (const std::exception &e) { vr::obj o; [&]{ double d = 0; record_header(o, in, d); }(); record_exception(o, e); vr::emit(o.done()); }
+        }
+    }
+
+    // ---------------- A2: IDR(s) aborted by its own breakdown (zero M[k,k]: a call with an all-zero system matrix)
+    for (int rep = 0; rep < (th ? 4 : 1); ++rep) {
+        vr::rng g(seed * 49979687ull + rep * 23 + 5);
+        int m = g.range(16, 22);
+        auto Agrid = fam_grid(g, m, m, 1, g.range(0, 1), 1, 1, 0, 0, 0);
+        size_t n = Agrid->nrows;
+        std::vector<double> zd(n, 0.0); auto Azero = diag_matrix(zd, 0.0);
+        for (int sI = 1; sI <= 4; ++sI) for (int opt = 0; opt < 2; ++opt) for (int pi = 0; pi < 2; ++pi) {
+            if (!mine()) continue;
+            solve_in in; in.mode = "hist"; in.solver = "idrs"; in.side = "right"; in.par = sI; in.opt = opt; in.maxit = 100; in.tol = 1e-8;
+            in.cfgid = cfgid; in.fam = "spd_m_grid2"; in.A = Agrid;
+            if (pi == 0) { in.pkind = "amg"; in.coars = COARS[g.below(3)]; in.relax = "spai0"; amg_params(in.prm, in.coars, in.relax, 60); }
+            else { in.pkind = "jac"; in.prm.put("precond.kind", "jac"); in.maxit = 400; }
+            solver_params(in.prm, "idrs", "right", sI, opt, in.maxit, in.tol);
+            std::vector<double> f1(n), x1(n, 0.0), f2, x2;
+            for (size_t i = 0; i < n; ++i) f1[i] = 1.0 + 0.25 * (i % 7);
+            second_rhs(g, f1, f2, x2);
+            try {
+                Solver solve(in.A, in.prm);
+                { std::vector<double> x = x1; bool thrown = false; std::string what;
+                  try { solve(*Azero, f1, x); } catch (const std::exception &e) { thrown = true; what = e.what(); }
+                  emit_abort(in, 0, thrown, what); }
+                in.cas = "after_breakdown"; in.f = f2; in.x0 = x2; run_solve_on(solve, in);
+                in.cas = "after_solve"; in.f = f1; in.x0 = x1; run_solve_on(solve, in);
+            } catch (const std::exception &e) { vr::obj o; double d = 0; record_header(o, in, d); record_exception(o, e); vr::emit(o.done()); }
+        }
+    }
+
+    // ---------------- D: the system matrix of the call differs from the preconditioner's (A1 = 1.25 A0 + 0.05 I)
+    for (int rep = 0; rep < (th ? 4 : 1); ++rep) {
+        vr::rng g(seed * 67867967ull + rep * 29 + 9);
+        int m = g.range(18, 26);
+        auto A0 = fam_grid(g, m, m, 1, g.range(0, 1), 1, 1, 0, 0, 0);
+        size_t n = A0->nrows;
+        rows_t rows(n);
+        for (size_t i = 0; i < n; ++i) for (ptrdiff_t q = A0->ptr[i]; q < A0->ptr[i + 1]; ++q)
+            rows[i].push_back({(int)A0->col[q], 1.25 * A0->val[q] + (A0->col[q] == (ptrdiff_t)i ? 0.05 : 0.0)});
+        auto A1 = vr::from_rows(n, n, rows);
+        struct variant { const char *solver; int par, opt; const char *key; const char *val; };
+        static const variant VS[] = {
+            {"cg", 1, 0, 0, 0}, {"bicgstab", 1, 0, 0, 0}, {"bicgstabl", 2, 0, 0, 0}, {"bicgstabl", 2, 1, 0, 0}, {"bicgstabl", 4, 1, "solver.delta", "0.5"},
+            {"gmres", 5, 0, 0, 0}, {"gmres", 30, 0, 0, 0}, {"fgmres", 5, 0, 0, 0}, {"lgmres", 5, 0, 0, 0},
+            {"idrs", 4, 0, 0, 0}, {"idrs", 4, 1, 0, 0}, {"idrs", 2, 0, "solver.replacement", "true"}, {"idrs", 4, 1, "solver.replacement", "true"},
+            {"richardson", 1, 0, 0, 0}, {"richardson", 1, 0, "solver.damping", "0.8"}};
+        for (const variant &v : VS) for (int sd = 0; sd < 2; ++sd) for (int pi = 0; pi < 2; ++pi) {
+            std::string s = v.solver;
+            if (sd && !is_sided(s)) continue;
+            if (pi == 1 && s == "richardson") continue;       // the perturbed Jacobi scaling is not a convergent splitting
+            if (!mine()) continue;
+            solve_in in; in.mode = "hist"; in.solver = s; in.sided = is_sided(s); in.side = sd ? "left" : "right"; in.par = v.par; in.opt = v.opt;
+            in.maxit = 200; in.tol = 1e-8; in.cfgid = cfgid; in.fam = "spd_m_grid2"; in.A = A0; in.Acall = A1;
+            if (pi == 0) { in.pkind = "amg"; in.coars = COARS[g.below(3)]; in.relax = g.coin() ? "spai0" : "damped_jacobi"; amg_params(in.prm, in.coars, in.relax, 60); }
+            else { in.pkind = "jac"; in.prm.put("precond.kind", "jac"); in.maxit = 600; }
+            solver_params(in.prm, s, in.side, v.par, v.opt, in.maxit, in.tol);
+            if (s == "lgmres") { in.prm.put("solver.M", 3); in.prm.put("solver.K", 2); }
+            if (v.key) in.prm.put(v.key, v.val);
+            std::vector<double> f1(n), x1(n, 0.0), f2, x2;
+            for (auto &q : f1) q = 2 * g.unit() - 1;
+            second_rhs(g, f1, f2, x2);
+            try {
+                Solver solve(in.A, in.prm);
+                in.cas = "other_matrix"; in.f = f1; in.x0 = x1; run_solve_on(solve, in);
+                in.cas = "other_matrix_reused"; in.f = f2; in.x0 = x2; run_solve_on(solve, in);
+            } catch (const std::exception &e) { vr::obj o; double d = 0; record_header(o, in, d); record_exception(o, e); vr::emit(o.done()); }
+        }
+    }
+
+    // ---------------- E: right-hand sides scaled by powers of two (exact scale invariance of the relative residual)
+    {
+        vr::rng g(seed * 86028121ull + 13);
+        // 2^100 and not 2^332 (1e100): there the Gram matrix of BiCGStab(L)'s polynomial step overflows in its QR
+        static const int SC[8] = {-20, -40, -43, -47, -50, 100, -332, 0};
+        for (int big = 0; big < 2; ++big) {
+            int m = big ? 160 : g.range(18, 24);
+            auto A = fam_grid(g, m, m, 1, g.range(0, 1), 1, 1, 0, 0, 0);
+            size_t n = A->nrows;
+            std::vector<double> fb(n); for (auto &q : fb) q = 2 * g.unit() - 1;
+            { ld nf = norm2(fb); int e; std::frexp((double)nf, &e); for (auto &q : fb) q = std::ldexp(q, -e); }   // ||f_base|| in [0.5, 1)
+            for (int si = 0; si < 8; ++si) {
+                if (!mine()) continue;
+                std::string s = SOLVERS[si];
+                solve_in in; in.mode = "scale"; in.solver = s; in.sided = is_sided(s); in.side = "right";
+                in.par = s == "bicgstabl" ? 2 : s == "idrs" ? 4 : (s == "gmres" || s == "fgmres" || s == "lgmres") ? 30 : 1;
+                in.maxit = 100; in.tol = 1e-8; in.cfgid = cfgid; in.fam = "spd_m_grid2"; in.A = A; in.pkind = "amg";
+                in.coars = big ? "smoothed_aggregation" : COARS[g.below(3)]; in.relax = "spai0";
+                amg_params(in.prm, in.coars, in.relax, big ? 3000 : 60);
+                solver_params(in.prm, s, "right", in.par, 0, in.maxit, in.tol);
+                in.x0.assign(n, 0.0);
+                try {
+                    Solver solve(in.A, in.prm);
+                    in.cas = "scale0"; in.sc = 0; in.f = fb; size_t it0 = 0; double r0 = run_solve_on(solve, in, &it0);
+                    in.it0 = (int)it0; in.rep0 = md(r0);
+                    for (int q = 0; q < 7; ++q) {
+                        in.sc = SC[q]; in.cas = "scaled"; in.f = fb; for (auto &v : in.f) v = std::ldexp(v, SC[q]);
+                        run_solve_on(solve, in);
+                    }
+                } catch (const std::exception &e) { vr::obj o; double d = 0; record_header(o, in, d); record_exception(o, e); vr::emit(o.done()); }
+            }
         }
     }
 
